@@ -105,6 +105,11 @@ class KernelEval(Evaluator):
         return self.order.sign_of_difference(v)
 
     def compare(self, op, l, r, node):
+        # inside a kernel a Python list stands for a 1-D array: array-with-scalar comparisons are elementwise (a mask)
+        if isinstance(l, list) and not isinstance(r, (list, tuple, dict, str)) and not isinstance(op, (ast.In, ast.NotIn, ast.Is, ast.IsNot)):
+            return [self.compare(op, x, r, node) for x in l]
+        if isinstance(r, list) and not isinstance(l, (list, tuple, dict, str)) and not isinstance(op, (ast.In, ast.NotIn, ast.Is, ast.IsNot)):
+            return [self.compare(op, l, x, node) for x in r]
         ll, rr = Lin.of(l) if not isinstance(l, (Quot, Term, SumV, Data)) else None, Lin.of(r) if not isinstance(r, (Quot, Term, SumV, Data)) else None
         if ll is not None and rr is not None and (isinstance(l, Lin) or isinstance(r, Lin)):
             s = self.order.sign_of_difference(ll - rr)
@@ -119,6 +124,8 @@ class KernelEval(Evaluator):
         return super().compare(op, l, r, node)
 
     def binop(self, op, l, r, node):
+        if isinstance(op, (ast.BitOr, ast.BitAnd)) and isinstance(l, list) and isinstance(r, list) and len(l) == len(r) and all(isinstance(x, bool) for x in l + r):
+            return [(a or b) if isinstance(op, ast.BitOr) else (a and b) for a, b in zip(l, r)]  # masks combined elementwise
         has_data = lambda x: isinstance(x, (Data, Term, SumV))
         if isinstance(op, (ast.Div, ast.FloorDiv, ast.Mod, ast.Pow)) and has_data(r):
             raise KernelFault(f"`{norm(node, 60)}` divides by (a combination of) the data values: the result is not proportional to the data")
